@@ -126,23 +126,32 @@ fn check(c: &Case, ctx: &Ctx, route: Route) -> Outcome {
     // from the plain and from the compressed file alike (what a file is is decided by its content)
     let as_reads = matches!(route, Route::Cli) && (n + c.k / 2 + m.orig[0].len()) % 3 == 0;
     if as_reads {
-        let reads_of = |recs: &[Vec<u8>], i: usize| -> Vec<(Vec<u8>, Vec<u8>)> {
+        let reads_of = |recs: &[Vec<u8>], i: usize, first: bool| -> Vec<(Vec<u8>, Vec<u8>)> {
             let mut out = Vec::new();
             for r in recs.iter().filter(|r| !r.is_empty()) {
                 for _ in 0..5 {
                     out.push((r.clone(), vec![b'I'; r.len()]));
                 }
             }
-            let noise = gen::filler(c.k, 11 + i);
-            out.insert(out.len() / 2, (noise.clone(), vec![b'I'; noise.len()]));
+            // the read seen once: short, or (a quarter of the cases) a single read of 50-70 kb, first in one file
+            // and last in the other
+            if (c.k / 2 + n + i) % 4 == 0 {
+                let mut x = (c.k * 1000 + i) as u64 | 1;
+                let long: Vec<u8> = (0..50_000 + (c.k * 997) % 20_000).map(|_| { x = crate::engine::splitmix64(x); model::BASES[(x >> 35) as usize & 3] }).collect();
+                let q = vec![b'I'; long.len()];
+                if first { out.insert(0, (long, q)); } else { out.push((long, q)); }
+            } else {
+                let noise = gen::filler(c.k, 11 + i);
+                out.insert(out.len() / 2, (noise.clone(), vec![b'I'; noise.len()]));
+            }
             out
         };
         for i in 0..n {
             let fa = dir.join(format!("a{i}.fastq"));
-            cli::write_fastq(&fa, &reads_of(&m.orig[i], i));
+            cli::write_fastq(&fa, &reads_of(&m.orig[i], i, true));
             files_a.push((names[i].clone(), cli::p(&fa)));
             let fb = dir.join(format!("b{i}.fastq"));
-            cli::write_fastq(&fb, &reads_of(&m.trans[i], i));
+            cli::write_fastq(&fb, &reads_of(&m.trans[i], i, false));
             if std::fs::read(&fa).ok() != std::fs::read(&fb).ok() {
                 bytes_differ = true;
             }
